@@ -3,6 +3,7 @@ package main
 // Engine: program loading, global analysis, type resolution, contract lookup.
 
 import (
+	"encoding/json"
 	"fmt"
 	"go/token"
 	"go/types"
@@ -38,6 +39,10 @@ type Engine struct {
 	usedContracts   map[string]bool
 	typesPkgs   map[string]*types.Package
 	elemMutable map[*ssa.Global]bool
+	// locals named by contracts: function -> name -> Go type, recorded on the pinned tree (baseline/names.json) so that a local
+	// that was merely renamed can be found again by its type
+	nameTypes map[string]map[string]string
+	seenNames map[string]map[string]string
 }
 
 func LoadEngine(repo string, verifDir string) (*Engine, error) {
@@ -74,6 +79,11 @@ func LoadEngine(repo string, verifDir string) (*Engine, error) {
 	eng.db.LoadExternDir(filepath.Join(verifDir, "contracts", "extern"))
 	eng.loadPureList(filepath.Join(verifDir, "contracts", "extern", "pure.list"))
 	eng.analyseGlobals()
+	eng.seenNames = map[string]map[string]string{}
+	eng.nameTypes = map[string]map[string]string{}
+	if b, err := os.ReadFile(filepath.Join(verifDir, "baseline", "names.json")); err == nil {
+		json.Unmarshal(b, &eng.nameTypes)
+	}
 	return eng, nil
 }
 
